@@ -19,6 +19,11 @@
 //	                          -> scripted datastore); only the final verdicts are compared (batching of the shared iterator is not modelled here)
 //	hr <maxSize> <events>     like h but without waiting between the reads (background drains race with the next reads); final verdicts only
 //	sq ...                    (see execSqlite) the cancellation / Head assumptions probed on the real memory iterator
+//	hc <n> <pauseAt> <order>  cancellation isolation of the shared iterator, through the full request wrapper (see execCancelShare): two
+//	                          requests A and B share one query over n (> bufferSize) tuples; A's context is cancelled while the batch
+//	                          fetch that A triggered is blocked inside the datastore iterator's pauseAt-th Next; B (live context) must
+//	                          still be served the complete uncached sequence.  order 0: B opens its iterator before A reads, 1: after
+//	                          A was cancelled.  output: "n=<n> A=P<k>,<end> B=P<k>,<end> made=<datastore iterators created>"
 //
 // Tuples are printed as their index in the filter's uncached result ("?" if the tuple is not in it, i.e. it was rebuilt wrongly).
 package main
@@ -648,6 +653,8 @@ func exec(line string, st *hx.Stats) string {
 		return execStack(f)
 	case "as":
 		return execAssume(f)
+	case "hc":
+		return execCancelShare(f)
 	}
 	return "badcase"
 }
@@ -741,6 +748,12 @@ func genEvents(r *hx.Rand, st *hx.Stats, withFaults bool, allowHC bool) string {
 func gen(r *hx.Rand, n int, tier string, emit func(string), st *hx.Stats) {
 	for i := 0; i < n; i++ {
 		c := r.Fork()
+		// a small share (1 in 50): a sharer cancelled in the middle of the batch fetch it triggered
+		if c.Intn(50) == 0 {
+			st.Inc("hc")
+			emit(genCancelShare(c))
+			continue
+		}
 		switch k := c.Intn(20); {
 		case k < 13:
 			st.Inc("h")
@@ -765,6 +778,177 @@ func gen(r *hx.Rand, n int, tier string, emit func(string), st *hx.Stats) {
 			emit(fmt.Sprintf("as %d %s", f, strings.ReplaceAll(genOps(c, fullLen[f])+"NnHhnn", "-", "")))
 		}
 	}
+}
+
+// ---------- a cancelled sharer must not truncate the other sharers' sequence ----------
+
+// gate blocks the pauseAt-th Next call of the datastore iterators until the harness lets it go on.  It only controls WHEN
+// the datastore answers, never WHAT: after the pause the call is forwarded unchanged, with the context it was given (so an
+// iterator that is handed a context cancelled meanwhile answers with the context's error, as the real iterators do).
+type gate struct {
+	mu      sync.Mutex
+	pauseAt int
+	calls   int
+	reached chan struct{} // closed when the pauseAt-th Next call has started
+	proceed chan struct{} // closed by the harness: go on
+}
+
+type gatedIter struct {
+	storage.TupleIterator
+	g *gate
+}
+
+func (i *gatedIter) Next(ctx context.Context) (*openfgav1.Tuple, error) {
+	i.g.mu.Lock()
+	i.g.calls++
+	hit := i.g.calls == i.g.pauseAt
+	i.g.mu.Unlock()
+	if hit {
+		close(i.g.reached)
+		select {
+		case <-i.g.proceed:
+		case <-time.After(20 * time.Second): // failure path only
+		}
+	}
+	return i.TupleIterator.Next(ctx)
+}
+
+type gatedDS struct {
+	storage.RelationshipTupleReader
+	g    *gate
+	mu   sync.Mutex
+	made int
+}
+
+func (d *gatedDS) Read(ctx context.Context, store string, f storage.ReadFilter, o storage.ReadOptions) (storage.TupleIterator, error) {
+	it, err := d.RelationshipTupleReader.Read(ctx, store, f, o)
+	if err != nil {
+		return nil, err
+	}
+	d.mu.Lock()
+	d.made++
+	d.mu.Unlock()
+	return &gatedIter{TupleIterator: it, g: d.g}, nil
+}
+
+// consume reads until the first error; returns the length of the in-order prefix (P<k>) followed by what came next.
+func consume(ctx context.Context, it storage.TupleIterator, want []*openfgav1.Tuple) string {
+	k := 0
+	for {
+		t, err := it.Next(ctx)
+		if err != nil {
+			return fmt.Sprintf("P%d,%s", k, errTok(err))
+		}
+		if k < len(want) && proto.Equal(t, want[k]) {
+			k++
+			continue
+		}
+		return fmt.Sprintf("P%d,?%s", k, strings.ReplaceAll(tuple.TupleKeyToString(t.GetKey()), " ", "_"))
+	}
+}
+
+func execCancelShare(f []string) string {
+	n, _ := strconv.Atoi(f[1])
+	pauseAt, _ := strconv.Atoi(f[2])
+	order := f[3]
+	mem := memory.New()
+	defer mem.Close()
+	for start := 0; start < n; start += 50 {
+		var ws []*openfgav1.TupleKey
+		for i := start; i < start+50 && i < n; i++ {
+			ws = append(ws, tuple.NewTupleKey("big:1", "viewer", fmt.Sprintf("user:u%04d", i)))
+		}
+		if err := mem.Write(context.Background(), storeID, nil, ws); err != nil {
+			return "setup:" + err.Error()
+		}
+	}
+	flt := storage.ReadFilter{Object: "big:1", Relation: "viewer"}
+	direct, err := mem.Read(liveCtx, storeID, flt, storage.ReadOptions{})
+	if err != nil {
+		return "setup:" + err.Error()
+	}
+	var want []*openfgav1.Tuple
+	for {
+		t, err := direct.Next(liveCtx)
+		if err != nil {
+			break
+		}
+		want = append(want, t)
+	}
+	direct.Stop()
+
+	serverCtx, cancelServer := context.WithCancel(context.Background())
+	defer cancelServer()
+	settings := serverconfig.NewDefaultCacheSettings()
+	settings.CheckCacheLimit = 10000
+	settings.CheckIteratorCacheEnabled = true
+	settings.CheckIteratorCacheMaxResults = 10000
+	settings.CheckIteratorCacheTTL = time.Hour
+	settings.SharedIteratorEnabled = true
+	settings.SharedIteratorLimit = 1000
+	res, err := shared.NewSharedDatastoreResources(serverCtx, &singleflight.Group{}, mem, settings)
+	if err != nil {
+		return "res:" + err.Error()
+	}
+	defer res.Close()
+	g := &gate{pauseAt: pauseAt, reached: make(chan struct{}), proceed: make(chan struct{})}
+	ds := &gatedDS{RelationshipTupleReader: mem, g: g}
+	mk := func() storage.RelationshipTupleReader {
+		return storagewrappers.NewRequestStorageWrapperWithCache(ds, nil,
+			&storagewrappers.Operation{Method: apimethod.Check, Concurrency: 10},
+			storagewrappers.DataResourceConfiguration{Resources: res, CacheSettings: settings})
+	}
+	ctxA, cancelA := context.WithCancel(context.Background())
+	defer cancelA()
+	itA, err := mk().Read(ctxA, storeID, flt, storage.ReadOptions{})
+	if err != nil {
+		return "errA"
+	}
+	var itB storage.TupleIterator
+	if order == "0" {
+		if itB, err = mk().Read(liveCtx, storeID, flt, storage.ReadOptions{}); err != nil {
+			return "errB"
+		}
+	}
+	doneA := make(chan string, 1)
+	go func() {
+		r := consume(ctxA, itA, want)
+		itA.Stop()
+		doneA <- r
+	}()
+	select {
+	case <-g.reached:
+	case <-time.After(20 * time.Second): // failure path only
+		close(g.proceed)
+		return "gate-not-reached A=" + <-doneA
+	}
+	cancelA() // A goes away while the fetch it triggered is inside the datastore iterator
+	close(g.proceed)
+	resA := <-doneA
+	if itB == nil {
+		if itB, err = mk().Read(liveCtx, storeID, flt, storage.ReadOptions{}); err != nil {
+			return "errB"
+		}
+	}
+	resB := consume(liveCtx, itB, want)
+	itB.Stop()
+	res.WaitGroup.Wait()
+	ds.mu.Lock()
+	made := ds.made
+	ds.mu.Unlock()
+	return fmt.Sprintf("n=%d A=%s B=%s made=%d", len(want), resA, resB, made)
+}
+
+func genCancelShare(r *hx.Rand) string {
+	n := 101 + r.Intn(160)
+	pauseAt := 1 + r.Intn(n)
+	switch r.Intn(4) {
+	case 0:
+		pauseAt = 101 + r.Intn(n-100) // in a later batch: A has already been served a full batch
+	case 1:
+		pauseAt = 1 + r.Intn(100)
+	}
+	return fmt.Sprintf("hc %d %d %d", n, pauseAt, r.Intn(2))
 }
 
 func main() { hx.Main(hx.Harness{Gen: gen, Exec: exec}) }
